@@ -122,7 +122,7 @@ def partial_lengths(k: int, e1: int, e2: int, last: int, fill: int) -> bool:
             '(never narrower than the value needs)',
     'tag 0..15, length type 0..2, n in [0, 2**32) restricted to values representable in the announced width '
     '(region where n needs more octets than announced: known finding KF-C09-oldlen)',
-    cond_timeout={'q': 120, 't': 400}, partitions=[['lt == 0'], ['lt == 1'], ['lt == 2']])
+    cond_timeout={'q': 300, 't': 600}, partitions=[['lt == 0'], ['lt == 1'], ['lt == 2']])
 def oldfmt_header(tag: int, lt: int, n: int) -> bool:
     """
     pre: 0 <= tag < 16
